@@ -11,7 +11,7 @@ IMPORTS = "From DC Require Import Model.Base Model.Loc Model.Bio Model.Pattern M
 CASE_TYPE = "case04"
 CHECKER = "check04"
 SHOW = "model04"
-SHARD = 130
+SHARD = 60
 RULE = ("random sets of 1-4 nucleotide-restricting constraints (AvoidChanges location/indices, EnforceTranslation both strands and "
         "all start-codon policies, EnforceSequence IUPAC both strands, EnforceChoice, EnforceChanges, AvoidRareCodons), overlapping, "
         "nested, antisense and contradictory, on sequences of length 6-8 (brute-forced over all 4^L sequences) and 12-30 (correspondence); "
@@ -36,7 +36,12 @@ def gen_hard(rng, seq):
             elif r2 < 0.7:
                 cs.append(("AvoidChanges", kw(location=rloc(rng, n, strands=(0, 1, -1)))))
             else:
-                cs.append(("AvoidChanges", kw(indices=tuple(sorted(rng.sample(range(n), rng.randint(1, min(4, n))))))))
+                ix = sorted(rng.sample(range(n), rng.randint(1, min(4, n))))
+                if rng.random() < 0.4 and len(ix) > 2:
+                    rest = ix[1:]
+                    rng.shuffle(rest)
+                    ix = [ix[0]] + rest
+                cs.append(("AvoidChanges", kw(indices=tuple(ix))))
         elif r < 0.5:
             loc = rloc(rng, n, strands=(1, -1), mult=3, minlen=3)
             pol = rng.choice([None, None, "keep", "ATG", ("ATG", "GTG"), "GTG"])
@@ -169,8 +174,16 @@ def impl_case(case):
     return res
 
 
+def timed_impl(case):
+    import time
+    t = time.time()
+    res = impl_case(case)
+    res["secs"] = time.time() - t
+    return res
+
+
 def run_impl(case):
-    return core.safe_call(impl_case, case, limit=45)
+    return core.safe_call(timed_impl, case, limit=45)
 
 
 def oracle(case, out):
@@ -202,6 +215,8 @@ def coq_case(case, out):
     o = out[1]
     if sum(len(vs) for _, _, vs in o["choices"]) > 3000:
         return None     # the literal would be megabytes; the L3 oracle still judged this case
+    if o.get("secs", 0) > (8.0 if case[3] else 2.0):
+        return None     # merges that take the implementation seconds take vm_compute minutes (eager model)
     return "KSpace %s %s %s" % (clist(["(%s, %s)" % (t, cbool(p)) for t, p in o["terms"]]), cseq(case[1]),
                                 clist(["(%s, %s, %s)" % (cz(a), cz(b), clist([cseq(v) for v in vs])) for a, b, vs in o["choices"]]))
 
